@@ -312,7 +312,11 @@ def _dfs_iter_tree(
       yield from _dfs_iter_tree(v, parent_key_path.at(Index(i)))
   elif parent_key_path:
     yield Key(parent_key_path)
-  elif data:
+  elif data is not None and not (
+      isinstance(data, (Mapping, Sequence)) and not isinstance(data, str)
+  ):
+    # The root itself is a leaf, also a falsy one (0, '') or an array: only an
+    # empty container (or no data) has no leaf.
     yield Key().SELF
 
 
